@@ -6,27 +6,28 @@ BIN = "vh_c08"
 COQ_TARGETS = ["Properties/C08.vo"]
 
 DISC = {0: [], 1: [0xA5], 2: [0xEF, 0xBE], 4: [0xEF, 0xBE, 0xAD, 0xDE], 8: [1, 2, 3, 4, 5, 6, 7, 8],
-        16: [16, 15, 14, 13, 12, 11, 10, 9, 8, 7, 6, 5, 4, 3, 2, 1]}
-PID = {0: 10, 1: 11, 2: 12, 4: 14, 8: 18, 16: 26}
+        16: [16, 15, 14, 13, 12, 11, 10, 9, 8, 7, 6, 5, 4, 3, 2, 1],
+        3: [0x31, 0x32, 0x33], 12: [12, 11, 10, 9, 8, 7, 6, 5, 4, 3, 2, 1], 24: list(range(1, 25))}
+PID = {0: 10, 1: 11, 2: 12, 4: 14, 8: 18, 16: 26, 3: 43, 12: 52, 24: 64}
 # account types whose discriminant IS the all-0xFF pattern the framework writes when it closes an account (keys 101 / 102 /
 # 108 = widths 1 / 2 / 8): owner + discriminant match, so they are admitted like any other type
 DISC.update({101: [255], 102: [255, 255], 108: [255] * 8})
 PID.update({101: 31, 102: 32, 108: 38})
-WIDTH = {0: 0, 1: 1, 2: 2, 4: 4, 8: 8, 16: 16, 101: 1, 102: 2, 108: 8}
-VARIANTS = (0, 1, 2, 4, 8, 16, 101, 102, 108)
+WIDTH = {0: 0, 1: 1, 2: 2, 4: 4, 8: 8, 16: 16, 3: 3, 12: 12, 24: 24, 101: 1, 102: 2, 108: 8}
+VARIANTS = (0, 1, 2, 3, 4, 8, 12, 16, 24, 101, 102, 108)
 E_OWNER = 23 << 32
 E_SMALL = 5 << 32
 E_BORROW = 12 << 32
 E_DISC = 1003
 
-RULE = ("exhaustive product in the quick tier: discriminant widths {0,1,2,4,8,16} x owners {program id, each of its 256 "
+RULE = ("exhaustive product in the quick tier: discriminant widths {0,1,2,3,4,8,12,16,24} x owners {program id, each of its 256 "
         "single-bit flips, system program} x data {every length 0..w+3 with the right prefix, every single-byte deviation "
         "of the prefix (two values per position), the all-0xFF closed marker, a valid body} x writable x borrow state "
         "(none / 1 shared / 7 shared or exclusive) x closed-by-the-framework first; the decisions repeated on accounts holding 0 / 1 / u64::MAX lamports; plus random bodies. "
         "non-trivial = the account passes validation or differs from a passing one in exactly one bit/byte/flag")
 TRUSTED = [
     "Coq 8.16.1 kernel", "extraction (ExtrOcamlBasic only) + runner/driver.ml",
-    "harness/src/bin/vh_c08.rs (six programs, one per discriminant width) + native AccountInfo builder",
+    "harness/src/bin/vh_c08.rs (twelve programs: discriminant widths 0,1,2,3,4,8,12,16,24 and three all-0xFF discriminants) + native AccountInfo builder",
     "tools/gen_constants.py (error codes)",
 ]
 ASSUMPTIONS = [
